@@ -152,12 +152,24 @@ pub struct ActionScript {
     pub publishes: Vec<Publish>,
 }
 
-#[derive(Default)]
 pub struct AuditPolicy {
+    /// when false, rule evaluations are not logged (large scenario runs that do not inspect the log)
+    pub record: std::cell::Cell<bool>,
     pub log: RefCell<Vec<Audit>>,
     pub dumps: RefCell<Vec<Facts>>,
     /// (parent address seen by an action, ids it published)
     pub action_parents: RefCell<Vec<Prior<Address>>>,
+}
+
+impl Default for AuditPolicy {
+    fn default() -> Self {
+        AuditPolicy {
+            record: std::cell::Cell::new(true),
+            log: RefCell::default(),
+            dumps: RefCell::default(),
+            action_parents: RefCell::default(),
+        }
+    }
 }
 
 struct View<'a, F: FactPerspective>(&'a mut F, &'a RefCell<bool>);
@@ -225,25 +237,30 @@ impl AuditPolicy {
         place: Place,
     ) -> Result<(), PolicyError> {
         if matches!(w.kind, Kind::Merge | Kind::Init) {
-            self.log.borrow_mut().push(Audit {
-                id: w.id,
-                kind: w.kind,
-                place,
-                verdict: Verdict::Accepted,
-            });
+            if self.record.get() {
+                self.log.borrow_mut().push(Audit {
+                    id: w.id,
+                    kind: w.kind,
+                    place,
+                    verdict: Verdict::Accepted,
+                });
+            }
             return Ok(());
         }
+
         let io_err = RefCell::new(false);
         let verdict = world::eval_rule(&w.id, &w.payload, &mut View(facts, &io_err));
         if *io_err.borrow() {
             return Err(PolicyError::Write);
         }
-        self.log.borrow_mut().push(Audit {
-            id: w.id,
-            kind: w.kind,
-            place,
-            verdict,
-        });
+        if self.record.get() {
+            self.log.borrow_mut().push(Audit {
+                id: w.id,
+                kind: w.kind,
+                place,
+                verdict,
+            });
+        }
         match verdict {
             Verdict::Accepted => {
                 sink.consume(Eff { id: w.id, place });
@@ -390,23 +407,41 @@ pub enum SinkEv {
     Commit,
 }
 
-#[derive(Default)]
 pub struct RecSink {
     pub log: Vec<SinkEv>,
+    /// when false nothing is recorded
+    pub enabled: bool,
+}
+
+impl Default for RecSink {
+    fn default() -> Self {
+        RecSink {
+            log: Vec::new(),
+            enabled: true,
+        }
+    }
 }
 
 impl Sink<Eff> for RecSink {
     fn begin(&mut self) {
-        self.log.push(SinkEv::Begin);
+        if self.enabled {
+            self.log.push(SinkEv::Begin);
+        }
     }
     fn consume(&mut self, effect: Eff) {
-        self.log.push(SinkEv::Consume(effect));
+        if self.enabled {
+            self.log.push(SinkEv::Consume(effect));
+        }
     }
     fn rollback(&mut self) {
-        self.log.push(SinkEv::Rollback);
+        if self.enabled {
+            self.log.push(SinkEv::Rollback);
+        }
     }
     fn commit(&mut self) {
-        self.log.push(SinkEv::Commit);
+        if self.enabled {
+            self.log.push(SinkEv::Commit);
+        }
     }
 }
 
